@@ -49,4 +49,26 @@ PROPS = {
         ],
         trusted_base=["CPython `re` (semantics of the generated regex: assumed, bounded cross-check only)"],
     ),
+    "C14": dict(
+        level="other",
+        contracts=["contracts.warnings"],
+        flow=["checks.flow_c14:run"],
+        harness=True,
+        explanation=(
+            "PROVED for all strings and all suppress lists: _is_suppressed_warning(type, subtype, S) is true iff some "
+            "entry of S is `type`, `type.subtype` or `type.*` (the three documented spellings and nothing else), under "
+            "the precondition that `type` contains no dot - loop invariant 'no earlier entry matches', discharged by "
+            "z3/cvc5.  PROVED by constant propagation at every call site of the warning API in myst_parser/ (one "
+            "obligation per site): the (type, subtype) pair is ('myst', member of MystWarnings) or the documented "
+            "('ref','footnote'); wtype is dot-free (discharges the precondition above); the result of create_warning is "
+            "discarded, returned by a wrapper or used as `[x] if x else []` (a suppressed warning cannot skip building "
+            "anything else); per catalogue member the number of typed sites does not fall below, and per function the "
+            "number of untyped reporter/logger sites does not rise above, the committed ledger.  BOUNDED: the "
+            "document-level relation 'suppressing a tag removes exactly the tagged warnings from log and doctree and "
+            "changes nothing else' on the docutils front end for a fixed document set (two genuine defects there are "
+            "listed in known_findings.json).  Not decided: removal from the log under Sphinx is Sphinx's own filter."
+        ),
+        assumptions=ENC,
+        trusted_base=["docutils 0.21.2 reporter (bounded stand-in only)"],
+    ),
 }
